@@ -209,21 +209,22 @@ def fedRemove (F : TFacts) (fed : Bool) (cfg : CbConfig) (a : J) : Prog Unit := 
   remove F op target
   wrappedAfter fed cfg "Remove" a
 
+/-- the `likes` / `shares` value of an object: a typed collection, or (IRI / anything else / absent) a fresh Collection -/
+def bumpCol (F : TFacts) (t : J) (p : String) : J :=
+  match t.get? p with
+  | some j => (match elemOf F j with
+    | .emb c => c
+    | _ => .obj [("type", .str "Collection")])
+  | none => .obj [("type", .str "Collection")]
+
 /-- prepend the activity id to the `likes`/`shares` collection of an owned object -/
-def bumpCollection (F : TFacts) (t : J) (p : String) (id : Iri) : Prog J := do
+def bumpCollection (F : TFacts) (t : J) (p : String) (id : Iri) : Prog J :=
   if !has F t p then Prog.fail .lib else
-  -- the property's value: a typed collection, or (IRI / anything else / absent) a fresh Collection
-  let col : J := match t.get? p with
-    | some j => (match elemOf F j with
-      | .emb c => c
-      | _ => .obj [("type", .str "Collection")])
-    | none => .obj [("type", .str "Collection")]
-  let key ←
-    if has F col "items" then pure "items"
-    else if has F col "orderedItems" then pure "orderedItems"
-    else Prog.fail .lib
-  let col := setList col key (iriJ id :: (rawList col key).getD [])
-  pure (t.set p col)
+  if has F (bumpCol F t p) "items" then
+    pure (t.set p (setList (bumpCol F t p) "items" (iriJ id :: (rawList (bumpCol F t p) "items").getD [])))
+  else if has F (bumpCol F t p) "orderedItems" then
+    pure (t.set p (setList (bumpCol F t p) "orderedItems" (iriJ id :: (rawList (bumpCol F t p) "orderedItems").getD [])))
+  else Prog.fail .lib
 
 def likeLoop (F : TFacts) (p : String) (id : Iri) (j : J) : Prog Unit := do
   let objId ← liftLib (toId F (elemOf F j))
